@@ -8,5 +8,6 @@ MCDocPatternsSmall == {<<>>} \cup {<<a>> : a \in Classes} \cup {<<"plain", "blan
 MCFieldDocPatterns == {<<>>, <<"plain">>, <<"quotes", "backquote">>, <<"tagplus", "percent">>, <<"plain", "blank", "atname">>, <<"backslash">>, <<"unicode", "tagat">>, <<"colon">>, <<"plain", "goword">>}
 MCKinds == {"struct", "genericStruct", "scalar", "map", "slice", "func", "interface", "unexportedScalar"}
 MCFieldPatterns == {"one", "withUnexported", "anonStruct", "emptyNamed", "embedValue", "embedPointer", "embedDocumented", "noExported", "namedCovered", "two",
-                    "namedIface", "namedGenericInst", "namedScalar"}      \* fields of a same-package interface / generic instantiation / named scalar
+                    "namedIface", "namedGenericInst", "namedScalar",
+                    "embedScalar"}      \* fields of a same-package interface / generic instantiation / named scalar; embedScalar: an embedded named scalar, in a package no struct of which embeds a struct
 =============================================================================
